@@ -33,6 +33,8 @@ the real lines):
   N11 after a helper was unfolded: 'text {}'.format('literal') and 'a' + 'b' of literals are folded
       (an SQL statement assembled from a literal table name becomes a literal statement again).
   N12 a, b = (x, y) -> a = x ; b = y  when no target occurs on the right.
+  N13 literal tests: `if True: A else: B` -> A,  `x if False else y` -> y.
+  N14 D = {'k': a, ...} used only as D['k'] with names / literals as values -> the values themselves.
   N3  keyword arguments that name the next positional parameter of a function
       of the repository become positional  (done by Repo once all modules are
       parsed).
@@ -493,6 +495,95 @@ def fold_constant_formats(tree):
     return n
 
 
+def fold_constant_tests(fnode):
+    """N13: `if True: A else: B` -> A ;  `x if False else y` -> y  (literal tests, as they arise when a helper
+    called with a literal flag is unfolded)."""
+    n = 0
+
+    def truth(t):
+        if isinstance(t, ast.Constant) and isinstance(t.value, (bool, int, type(None))) and not isinstance(t.value, str):
+            return bool(t.value)
+        if isinstance(t, ast.UnaryOp) and isinstance(t.op, ast.Not):
+            v = truth(t.operand)
+            return None if v is None else (not v)
+        return None
+
+    for block in list(_blocks(fnode)):
+        i = 0
+        while i < len(block):
+            st = block[i]
+            if isinstance(st, ast.If):
+                v = truth(st.test)
+                if v is not None:
+                    keep = st.body if v else st.orelse
+                    block[i:i + 1] = keep if keep else [ast.copy_location(ast.Pass(), st)]
+                    n += 1
+                    continue
+            i += 1
+    for parent in ast.walk(fnode):
+        for fld, val in ast.iter_fields(parent):
+            items = val if isinstance(val, list) else [val]
+            for j, x in enumerate(items):
+                if isinstance(x, ast.IfExp):
+                    v = truth(x.test)
+                    if v is not None:
+                        new = x.body if v else x.orelse
+                        if isinstance(val, list):
+                            val[j] = new
+                        else:
+                            setattr(parent, fld, new)
+                        n += 1
+    return n
+
+
+def unpack_literal_dicts(fnode):
+    """N14: D = {'k': a, ...} (bound once, never changed in place, used only as D['k']) with plain names /
+    literals as values:  D['k'] -> a,  and the dict disappears."""
+    own, nested = _own_nodes(fnode)
+    stores, defs = {}, {}
+    for n_ in own:
+        if isinstance(n_, ast.Name) and isinstance(n_.ctx, (ast.Store, ast.Del)):
+            stores[n_.id] = stores.get(n_.id, 0) + 1
+        if isinstance(n_, ast.Assign) and len(n_.targets) == 1 and isinstance(n_.targets[0], ast.Name) and isinstance(n_.value, ast.Dict):
+            defs[n_.targets[0].id] = n_
+    captured = {x.id for sc in nested for x in ast.walk(sc) if isinstance(x, ast.Name)}
+    params = {a.arg for a in fnode.args.posonlyargs + fnode.args.args + fnode.args.kwonlyargs}
+    total = 0
+    for name, st in list(defs.items()):
+        d = st.value
+        if stores.get(name) != 1 or name in captured or name in params:
+            continue
+        if not all(isinstance(k, ast.Constant) for k in d.keys) or len({k.value for k in d.keys}) != len(d.keys):
+            continue
+        if not all(isinstance(v, ast.Constant) or (isinstance(v, ast.Name) and ((v.id in params and not stores.get(v.id)) or stores.get(v.id) == 1)) for v in d.values):
+            continue
+        table = {k.value: v for k, v in zip(d.keys, d.values)}
+        uses = [x for x in own if isinstance(x, ast.Name) and x.id == name and isinstance(x.ctx, ast.Load)]
+        subs = []
+        ok = True
+        for u in uses:
+            hit = None
+            for p_ in own:
+                if isinstance(p_, ast.Subscript) and p_.value is u and isinstance(p_.ctx, ast.Load) and isinstance(p_.slice, ast.Constant) and p_.slice.value in table:
+                    hit = p_
+            if hit is None:
+                ok = False
+                break
+            subs.append(hit)
+        if not ok or not subs:
+            continue
+        for sub in subs:
+            _replace(fnode, sub, _clone(table[sub.slice.value]))
+        for block in _blocks(fnode):
+            if st in block:
+                block.remove(st)
+                if not block:
+                    block.append(ast.Pass())
+                break
+        total += 1
+    return total
+
+
 def split_tuple_assignments(fnode):
     """N12: a, b = (x, y) -> a = x ; b = y   when no target name occurs in any right-hand element."""
     n = 0
@@ -577,12 +668,14 @@ def normalize_module(tree, modname=None, foreign=None):
         if isinstance(node, (ast.FunctionDef, ast.AsyncFunctionDef)):
             expand_star_tuples(node)
             loops_to_comprehensions(node)
+            fold_constant_tests(node)
             for _k in range(3):
                 a_ = inline_temporaries(node)
                 c_ = split_tuple_assignments(node)
                 b_ = propagate_aliases(node)
+                d_ = unpack_literal_dicts(node)
                 n_inl += a_ + b_
-                if not (a_ or b_ or c_):
+                if not (a_ or b_ or c_ or d_):
                     break
     if n_h:
         fold_constant_formats(tree)       # literal arguments that arrived by unfolding a helper
